@@ -136,6 +136,18 @@ def _gen_case(rng, t):
         rounds = [rest] if rng.random() < 0.5 or len(rest) < 2 else [rest[: len(rest) // 2], rest[len(rest) // 2:]]
         case.update({"order": succ[:n_init] + rest, "n_init": n_init, "rounds": rounds, "fail": sorted(fail),
                      "ff": rng.choice(["min", "min", "mean"])})
+    elif r < 0.7:
+        case["route"] = "fit_surrogate"     # CBO.fit_surrogate(DataFrame) instead of search(): the other place that negates
+    if nobj >= 2 and not case["fail"] and rng.random() < 0.2:
+        # moo_lower_bounds: region of interest for some objectives (penalty after scaling); bound at a quantile of the values
+        lb = []
+        for i in range(m):
+            col = sorted(o[i] for o in objs)
+            lb.append(col[rng.randrange(len(col))] if rng.random() < 0.6 else None)
+        if any(b is not None for b in lb):
+            case["bounds"] = lb
+    if not case["fail"] and surrogate != "GP" and rng.random() < 0.2:
+        case["lies"] = rng.choice(["cl_max", "cl_max", "cl_min", "cl_mean"])   # constant-liar batch after the last fit
     return case
 
 
@@ -176,7 +188,7 @@ class _Spies:
         import deephyper.skopt.moo as moo
 
         self.om, self.sp, self.moo = om, sp, moo
-        self.rec = {"fit": [], "acq": [], "rvs": [], "scal": [], "spy_error": []}
+        self.rec = {"fit": [], "acq": [], "rvs": [], "scal": [], "spy_error": [], "lies": [], "lie_flag": False}
 
     def __enter__(self):
         om, sp, moo, rec = self.om, self.sp, self.moo, self.rec
@@ -241,6 +253,17 @@ class _Spies:
             Spy.__name__ = cls.__name__
             return Spy
 
+        self._otell = om.Optimizer._tell
+
+        def tell_spy(this, x, y, *a, **k):
+            try:
+                if rec["lie_flag"] and not (len(x) > 0 and isinstance(x[0], (list, tuple))):
+                    rec["lies"].append(np.asarray(y, dtype=float).tolist())
+            except Exception as e:
+                rec["spy_error"].append("lie spy: " + repr(e))
+            return self._otell(this, x, y, *a, **k)
+
+        om.Optimizer._tell = tell_spy
         om.clone, om._gaussian_acquisition, sp.Space.rvs = clone_spy, acq_spy, rvs_spy
         for k in list(moo.moo_functions):
             moo.moo_functions[k] = wrap(self._moo[k])
@@ -248,6 +271,7 @@ class _Spies:
 
     def __exit__(self, *a):
         self.om.clone, self.om._gaussian_acquisition, self.sp.Space.rvs = self._clone, self._acq, self._rvs
+        self.om.Optimizer._tell = self._otell
         for k, v in self._moo.items():
             self.moo.moo_functions[k] = v
 
@@ -291,33 +315,58 @@ def _observe(case):
                 n_initial_points=n_init, initial_points=[{"a": int(a)} for a in case["order"][:n_init]],
                 n_points=60 + 10 * K, filter_duplicated=False, objective_scaler=case["scaler"],
                 moo_scalarization_strategy=case["strategy"], moo_scalarization_weight=case["weights"],
-                filter_failures=case.get("ff", "min"),
+                filter_failures=case.get("ff", "min"), moo_lower_bounds=case.get("bounds"),
+                multi_point_strategy=case.get("lies") or "cl_max",
             )
-            res = search.search(max_evals=n_init)
-            told = [int(v) for v in res["p:a"].tolist()]
+            if case.get("route") == "fit_surrogate":
+                import pandas as pd
+
+                cols = {"p:a": [int(a) for a in case["order"]]}
+                if case["nobj"] == 0:
+                    cols["objective"] = [float(case["objs"][a][0]) for a in case["order"]]
+                else:
+                    for i in range(case["nobj"]):
+                        cols[f"objective_{i}"] = [float(case["objs"][a][i]) for a in case["order"]]
+                search.fit_surrogate(pd.DataFrame(cols))
+                told = [int(a) for a in case["order"]]
+            else:
+                res = search.search(max_evals=n_init)
+                told = [int(v) for v in res["p:a"].tolist()]
             proposals = [int(search.ask(1)[0]["a"])]
             for rnd in rounds:
                 search.tell([({"a": int(c)}, _objective(case, c)) for c in rnd])
                 told += [int(c) for c in rnd]
                 proposals.append(int(search.ask(1)[0]["a"]))
             rec = spies.rec
+            nf, na = len(rec["fit"]), len(rec["acq"])
+            if case.get("lies"):
+                rec["lie_flag"] = True
+                out["batch"] = [int(x["a"]) for x in search.ask(3)]
+                rec["lie_flag"] = False
+                out["lies"] = rec["lies"]
             out["told_a"] = told
             out["proposals"] = proposals
-            out["fits"] = rec["fit"]
-            out["acqs"] = rec["acq"]
+            out["fits"] = rec["fit"][:nf]      # the constant-liar batch refits copies of the optimizer: not part of the history
+            out["acqs"] = rec["acq"][:na]
             out["spy_error"] = rec["spy_error"][:3]
             # the scaled history at every fit, from the repo's own scaler factory (public function), on the
             # successful told values of that moment
             forest = case["surrogate"] in ("RF", "ET")
-            out["scaled"] = []
-            for f in rec["fit"]:
+            out["scaled"], out["ub_scaled"] = [], []
+            for f in rec["fit"][:nf]:
                 rows = [[-float(v) for v in case["objs"][c]] for c in told[: len(f["y"])] if c not in case.get("fail", [])]
                 if not rows:
                     out["scaled"].append([])
+                    out["ub_scaled"].append([])
                     continue
                 scl = cook_objective_scaler(case["scaler"], RandomForestRegressor() if forest else None)
                 arr = np.asarray(rows, dtype=float)
                 out["scaled"].append(np.asarray(scl.fit(arr).transform(arr), dtype=float).tolist())
+                if case.get("bounds"):
+                    ub = [m if b is None else -float(b) for m, b in zip(arr.max(axis=0).tolist(), case["bounds"])]
+                    out["ub_scaled"].append(np.asarray(scl.transform(np.asarray([ub], dtype=float))[0], dtype=float).tolist())
+                else:
+                    out["ub_scaled"].append([])
             try:
                 ev.close()
             except Exception:
@@ -390,6 +439,9 @@ def _request(case, obs, eff, i):
            "sd": [rat(v) for v in a["sd"]], "kappa": rat(a["kappa"]), "ff": case.get("ff", "min"), "maxf": 100}
     if req["scaler"] == "given":
         req["scaled"] = [[rat(v) for v in r] for r in obs["scaled"][i]]
+    if case.get("bounds"):
+        req["bounds"] = [None if b is None else rat(-float(b)) for b in case["bounds"]]
+        req["ub_scaled"] = [rat(v) for v in obs["ub_scaled"][i]]
     return req
 
 
@@ -418,7 +470,7 @@ def _cond(rows):
     return cond
 
 
-def _judge_fit(ck, case, obs, rep, eff, i, failed_before):
+def _judge_fit(ck, case, obs, rep, eff, i, failed_before, pending):
     """one surrogate fit of the history; returns (score of the proposal, best score) when the maximality oracle applied"""
     f, a = obs["fits"][i], obs["acqs"][i]
     y_fit = f["y"]
@@ -434,6 +486,12 @@ def _judge_fit(ck, case, obs, rep, eff, i, failed_before):
         return None
     rows = [[-float(v) for v in case["objs"][c]] for c in succ]
     cond = _cond(rows)
+    if case.get("bounds") and f["u"]:
+        # the penalty of the region of interest is added to every component and removed again with the utopia point:
+        # the same cancellation, now with the penalty's magnitude against the spread of the targets
+        spread = max(y_fit) - min(y_fit)
+        if spread > 0:
+            cond = max(cond, max(abs(v) for v in f["u"]) / spread)
     rel = 1e-9 + 64 * EPS * cond
     ck.count("cond:" + ("<1e3" if cond < 1e3 else "<1e6" if cond < 1e6 else ">=1e6"))
     # ---- L2: targets of this fit, from the full history at this moment
@@ -472,7 +530,9 @@ def _judge_fit(ck, case, obs, rep, eff, i, failed_before):
         ck.mismatch(case, {"what": "proposal is not the first arg-min candidate of the acquisition", "fit": i,
                            "proposal": prop, "model_choice": None if choice is None or len(cand) != len(vals) else cand[choice]})
     # ---- L3: the property on the implementation's own outputs
-    score = case["scores"] if case["kind"] == "aligned" else None
+    # with a region of interest (moo_lower_bounds) the penalised rows are still ordered by the score, which is what the
+    # monotone strategies need (C05_bounds_penalty_monotone); PBI / Quadratic are then only compared with the model
+    score = case["scores"] if case["kind"] == "aligned" and (not case.get("bounds") or case["strategy"] in MONOTONE) else None
     tmin_s = min(y_fit[pos[c]] for c in succ)
     tmax_s = max(y_fit[pos[c]] for c in succ)
     base_detail = {"fit": i, "told": ids, "failed_configurations": sorted(fail & set(ids)), "fitted_targets_by_candidate": {c: y_fit[pos[c]] for c in ids},
@@ -523,18 +583,34 @@ def _judge_fit(ck, case, obs, rep, eff, i, failed_before):
     detail.update({"proposal": prop})
     if not contract_met or not succ_present:
         return None
+    if score is not None:
+        # verdict by the verified checker `checkChoice` (theorem C05_checker) on the real proposal
+        best = max(score[c] for c in succ_present)
+        py_ok = prop not in fail and score[prop] == best
+        detail.update({"score_of_proposal": score[prop], "best_score": best, "best_candidate": [c for c in succ_present if score[c] == best]})
+        req = {"op": "choice", "score": [rat(v) for v in score], "succ": [c not in fail for c in range(case["K"])],
+               "cands": [int(c) for c in present], "chosen": int(prop)}
+
+        def verdict(rep, case=case, detail=detail, prop=prop, py_ok=py_ok):
+            if bool(rep["check"]) != py_ok:
+                raise HarnessError(f"checkChoice ({rep['check']}) and the harness's own evaluation ({py_ok}) disagree on {detail}")
+            ck.count("checkChoice:" + ("accepted" if rep["check"] else "rejected"))
+            if rep["check"]:
+                return
+            if prop in fail:
+                ck.fail(_fp("proposed-failed-config", case, eff, "CBO.ask", ffx),
+                        "a failed configuration is proposed although successful ones exist", case, detail)
+            elif "chosen-not-max" not in failed_before:
+                ck.fail(_fp("chosen-not-max", case, eff, "CBO.ask", later), "with every candidate observed and kappa=0 the proposal is not the "
+                        "successful candidate of largest objective(s)", case, detail)
+                failed_before.add("chosen-not-max")
+
+        pending.append((req, verdict))
+        return (score[prop], best) if prop not in fail else None
     if prop in fail:
         ck.fail(_fp("proposed-failed-config", case, eff, "CBO.ask", ffx),
                 "a failed configuration is proposed although successful ones exist", case, detail)
         return None
-    if score is not None:
-        best = max(score[c] for c in succ_present)
-        if score[prop] != best and "chosen-not-max" not in failed_before:
-            detail.update({"score_of_proposal": score[prop], "best_score": best, "best_candidate": [c for c in succ_present if score[c] == best]})
-            ck.fail(_fp("chosen-not-max", case, eff, "CBO.ask", later), "with every candidate observed and kappa=0 the proposal is not the successful "
-                    "candidate of largest objective(s)", case, detail)
-            failed_before.add("chosen-not-max")
-        return score[prop], best
     if case["strategy"] in MONOTONE and (f["w"] is None or all(v >= 0 for v in f["w"])):
         po = case["objs"][prop]
         for c in succ_present:
@@ -546,7 +622,40 @@ def _judge_fit(ck, case, obs, rep, eff, i, failed_before):
     return None
 
 
-def _judge(ck, case, obs, reps, eff):
+def _judge_lies(ck, case, obs, eff, pending):
+    """constant-liar batch after the last fit: the lies told to the optimizer copy (internal, negated scale) vs the model's
+    `lieInternal (mapMultiPoint name)`, and — the direction — vs the max / mean / min of the OBJECTIVES the user-facing name promises"""
+    name = case["lies"]
+    lies = obs.get("lies") or []
+    ck.count(f"lies:{name}:{len(lies)}")
+    if len(lies) != 2:
+        ck.mismatch(case, {"what": "expected 2 constant-liar lies for ask(3)", "seen": lies})
+        return
+    m = max(case["nobj"], 1)
+    cols = [[-float(case["objs"][c][j]) for c in obs["told_a"]] for j in range(m)]
+    user = {"cl_max": max, "cl_min": min, "cl_mean": lambda v: sum(v) / len(v)}[name]
+    for k, lie in enumerate(lies):
+        got = lie if isinstance(lie, list) else [lie]
+        cur = [list(c) for c in cols]
+        req = {"op": "lie", "strategy": name, "cols": [[rat(v) for v in c] for c in cur]}
+        want_user = [user([-v for v in c]) for c in cur]
+
+        def verdict(rep, got=got, want_user=want_user, k=k, case=case):
+            model = [float(unrat(v)) for v in rep["lie"]]
+            sc = max(max(abs(v) for v in model), 1e-300)
+            if len(model) != len(got) or not all(_close(a, b, sc, 1e-12) for a, b in zip(model, got)):
+                ck.mismatch(case, {"what": "constant-liar lie differs from lieInternal(mapMultiPoint name)", "k": k, "impl": got, "model": model,
+                                   "internal_name": rep["internal"]})
+            if not all(_close(-a, b, sc, 1e-12) for a, b in zip(got, want_user)):
+                ck.fail(_fp("constant-liar-direction", case, eff, "CBO.ask(n>1)", f",multi_point_strategy={case['lies']}"),
+                        f"the lie of '{case['lies']}' is not the {case['lies'][3:]} of the observed objectives", case,
+                        {"lie_as_objective": [-a for a in got], "expected": want_user, "k": k})
+
+        pending.append((req, verdict))
+        cols = [c + [g] for c, g in zip(cols, got)]
+
+
+def _judge(ck, case, obs, reps, eff, pending):
     K = case["K"]
     ck.count(f"surrogate:{case['surrogate']}{'+interp' if case['interp'] else ''}")
     ck.count(f"scaler:{case['scaler']}->{eff}")
@@ -555,6 +664,7 @@ def _judge(ck, case, obs, reps, eff):
     ck.count(f"kind:{case['kind']}/{case['sign']}")
     ck.count("weights:" + ("none" if case["nobj"] == 0 else "random" if case["weights"] is None else "fixed"))
     ck.count("history:" + ("failures/" + case.get("ff", "min") if case.get("fail") else f"fits={1 + len(case.get('rounds', []))}"))
+    ck.count("route:" + case.get("route", "search") + ("+bounds" if case.get("bounds") else ""))
     mags = [abs(v) for r in case["objs"] for v in r if v != 0]
     ck.count("magnitude:" + ("<=1e-4" if max(mags) <= 1e-4 else ">=1e6" if max(mags) >= 1e6 else "moderate"))
     if sorted(obs["told_a"]) != list(range(K)):
@@ -566,10 +676,12 @@ def _judge(ck, case, obs, reps, eff):
     if not (len(obs["fits"]) == len(obs["acqs"]) == len(obs["proposals"]) == 1 + len(case.get("rounds", []))):
         ck.mismatch(case, {"what": "unexpected number of surrogate fits / acquisitions", "fits": len(obs["fits"]), "acqs": len(obs["acqs"]),
                            "rounds": 1 + len(case.get("rounds", []))})
+    if case.get("lies"):
+        _judge_lies(ck, case, obs, eff, pending)
     out = None
     failed_before = set()
     for i in range(nfit):
-        out = _judge_fit(ck, case, obs, reps[i], eff, i, failed_before)
+        out = _judge_fit(ck, case, obs, reps[i], eff, i, failed_before, pending)
     return out
 
 
@@ -852,13 +964,17 @@ def _judge_jobs(ck, d, names, jobs, obs_all):
             reqs.append(_request(case, obs, eff, i))
     reps = d.ask_all(reqs)
     results = {}
+    pending = []
     for n, ((case, var), obs) in enumerate(zip(jobs, obs_all)):
         if spans[n] is None:
             continue
         start, nfit = spans[n]
         eff = _eff_scaler(case, names)
         ck.case(case, nontrivial=case["nobj"] >= 1 or case["sign"] != "neg" or bool(case.get("fail")) or bool(case.get("rounds")))
-        results[n] = (_judge(ck, case, obs, reps[start:start + nfit], eff), eff)
+        results[n] = (_judge(ck, case, obs, reps[start:start + nfit], eff, pending), eff)
+    # second round trip: the verified checker on the real proposals, the constant-liar lies
+    for (req, verdict), rep in zip(pending, d.ask_all([q for q, _ in pending])):
+        verdict(rep)
     # shift / scale clause: the proposal's score must be the same in the base run and in its variants
     n = 0
     while n < len(jobs):
